@@ -557,7 +557,7 @@ Fixpoint steps (q : quirks) (regs : list trie) (os : list sop) : list trie * lis
            | (1 (cp ...))                   -> (0 path) | (1 e)                  parse; e: 0 close 1 open 2 int()
            | (2 path)                       -> as parse                          parse(path_str(path))
            | (3 op p q)                     -> (0 x) | (1 e)                     arithmetic / comparison
-           | (5 dollar (sop ...))           -> ((out ...) (paths-of-reg ...))    KeyPathSet machine *)
+           | (5 dollar (sop ...))           -> ((out ...) ((paths bool) ...))    KeyPathSet machine; final state of the 3 registers *)
 Definition ekey (k : key) : tr := match k with KStr s => L [I 0%Z; estr s] | KInt z => L [I 1%Z; I z] end.
 Definition epath (p : list key) : tr := elist ekey p.
 Definition dkey (t : tr) : option key :=
@@ -631,7 +631,7 @@ Definition run_set (dollar : bool) (os : list sop) : tr :=
   let crashed := existsb (fun o => match o with OCrash => true | _ => false end) outs in
   L [elist esout outs;
      if crashed then L []
-     else elist (fun t => if iter_ok (TDict t) then elist epath (paths t) else L [I (-2)%Z]) regs].
+     else elist (fun t => if iter_ok (TDict t) then L [elist epath (paths t); ebool (negb (is_nil t))] else L [I (-2)%Z]) regs].
 
 Definition run_kp (c : tr) : tr :=
   match c with
